@@ -1,12 +1,27 @@
 (* Basic facts about the type relations model: unfolding, reflexivity,
    fit => cast, heads of weak-replaceable types, casts distinct <-> underlying. *)
-From Capy Require Import Common.Util Common.Ty Model.TyRel Model.ExpectMatch Spec.TyLaws.
+From Capy Require Import Common.Util Common.Ty.
+From Capy Require Import Model.TyRel Model.ExpectMatch Spec.TyLaws.
 
 Local Arguments ty_eqb : simpl never.
 Local Arguments N.eqb : simpl never.
 Local Arguments N.leb : simpl never.
 Local Arguments N.ltb : simpl never.
-Local Arguments members_rel : simpl never.
+Local Arguments TyRel.members_rel : simpl never.
+
+Section WithFixes.
+Variable fx : fixes.
+Notation fit := (TyRel.fit fx).
+Notation weak := (TyRel.weak fx).
+Notation feq := (TyRel.feq fx).
+Notation cast := (TyRel.cast fx).
+Notation has_semantics_of := (TyRel.has_semantics_of fx).
+Notation tmax := (TyRel.tmax fx).
+Notation accepts := (TyLaws.accepts fx).
+Notation known_weak_fit := (TyLaws.known_weak_fit fx).
+Notation known_max := (TyLaws.known_max fx).
+Notation max_accepts := (TyLaws.max_accepts fx).
+Notation ntarget := (TyLaws.ntarget fx).
 
 (* ---- C12 law 1: reflexivity --------------------------------------------- *)
 Lemma fit_refl : forall a, fit a a = true.
@@ -18,13 +33,15 @@ Proof. intro H. apply ty_eqb_eq in H. subst. apply fit_refl. Qed.
 
 (* ---- C12 law 2: fit => cast ---------------------------------------------- *)
 Lemma fit_implies_cast : forall a b, fit a b = true -> cast a b = true.
-Proof. intros a b H. destruct a; destruct b; cbn [cast]; rewrite H; reflexivity. Qed.
+Proof. intros a b H. destruct a; destruct b; cbn [TyRel.cast]; rewrite H; reflexivity. Qed.
 
 (* the struct arm of is_weak_replaceable_by is can_fit_into on the same pair *)
 Lemma weak_struct_is_fit a u ems :
   (match a with Struct _ _ | AnonStruct _ => true | _ => false end) = true ->
   weak a (Struct u ems) = fit a (Struct u ems).
 Proof.
-  destruct a; try discriminate; intros _; cbn [weak fit];
+  destruct a; try discriminate; intros _; cbn [TyRel.weak TyRel.fit];
     destruct (ty_eqb _ _); reflexivity.
 Qed.
+
+End WithFixes.
